@@ -4,7 +4,7 @@
    Generators are modelled in continuation-passing style over an explicit store (DESIGN section 3): the consumer of a
    `yield` runs inside the continuation, so every attribute write happens in Python's order.  The store holds what
    Python keeps outside the row: per node `_is_false_`, `left_evaluated`, `right_evaluated`, the dynamic `_conclusion_`
-   set of a selector, `concluded_before[True/False]` (keys = identity of the value bound to x), and per ExceptIf activation
+   set of a selector, `concluded_before[(truth, frozenset(conclusions))]` (keys = identity of the value bound to x), and per ExceptIf activation
    the local `right_yielded` (a cell saved on entry and restored on exit, so nested activations of one node do not clash).
 
    A tree is what `reify` (RuleBuild.v) reads off the heap through left / right / _child_: leaves are the and_-chains of
@@ -24,17 +24,19 @@ Inductive tree :=
 Definition root_id (t : tree) : nat := match t with Leaf id _ _ => id | Node id _ _ _ => id end.
 
 (* ---- store ---- *)
-Definition FLAG := 0. Definition SEENT := 1. Definition SEENF := 2. Definition DYN := 3.
+Definition FLAG := 0. Definition DYN := 3.
 Definition LEV := 4. Definition REV := 5. Definition RY := 6.
 
-Record store := { mem : nat -> nat -> list nat; out : list (list nat * nat) }.
+(* [seen]: concluded_before of every selector: (selector node, truth branch, set of conclusions, identity of the value of x) *)
+Definition seen_entry := (nat * bool * list nat * nat)%type.
+Record store := { mem : nat -> nat -> list nat; seen : list seen_entry; out : list (list nat * nat) }.
 Definition get (f n : nat) (S : store) : list nat := mem S f n.
 Definition set (f n : nat) (v : list nat) (S : store) : store :=
-  {| mem := fun f' n' => if Nat.eqb f f' && Nat.eqb n n' then v else mem S f' n'; out := out S |}.
+  {| mem := fun f' n' => if Nat.eqb f f' && Nat.eqb n n' then v else mem S f' n'; seen := seen S; out := out S |}.
 Definition getb (f n : nat) (S : store) : bool := match get f n S with [] => false | _ => true end.
 Definition setb (f n : nat) (b : bool) (S : store) : store := set f n (if b then [1] else []) S.
-Definition emit (row : list nat * nat) (S : store) : store := {| mem := mem S; out := row :: out S |}.
-Definition init : store := {| mem := fun _ _ => []; out := [] |}.
+Definition emit (row : list nat * nat) (S : store) : store := {| mem := mem S; seen := seen S; out := row :: out S |}.
+Definition init : store := {| mem := fun _ _ => []; seen := []; out := [] |}.
 
 Definition memb (i : nat) (l : list nat) : bool := existsb (Nat.eqb i) l.
 Fixpoint union (a b : list nat) : list nat :=
@@ -46,13 +48,22 @@ Definition K := binding -> bool -> store -> store.
 Definition concl_now (t : tree) (S : store) : list nat :=
   match t with Leaf _ _ c => c | Node id _ _ _ => get DYN id S end.
 
-(* ConclusionSelector.update_conclusion: the key is the binding of x (every conclusion mentions x) *)
+(* ConclusionSelector.update_conclusion (since /repo 35fa150): one coverage index per truth branch AND per set of
+   conclusions (frozenset(conclusions)); inside it the key is the binding of x (every conclusion mentions x).
+   Conclusions are identified by their tags: distinct Add objects are assumed to carry distinct tags. *)
+Definition set_eqb (a b : list nat) : bool :=
+  forallb (fun x => memb x b) a && forallb (fun x => memb x a) b.
+Definition entry_is (id : nat) (tr : bool) (c : list nat) (i : nat) (e : seen_entry) : bool :=
+  match e with (n, t, c', j) => Nat.eqb n id && Bool.eqb t tr && set_eqb c' c && Nat.eqb j i end.
+Definition seenb (id : nat) (tr : bool) (c : list nat) (i : nat) (S : store) : bool :=
+  existsb (entry_is id tr c i) (seen S).
+Definition add_seen (e : seen_entry) (S : store) : store := {| mem := mem S; seen := e :: seen S; out := out S |}.
 Definition update_conclusion (id i : nat) (concl : list nat) (S : store) : store :=
   match concl with
   | [] => S
-  | _ => let fld := if negb (getb FLAG id S) then SEENT else SEENF in
-         if memb i (get fld id S) then S
-         else set fld id (i :: get fld id S) (set DYN id (union (get DYN id S) concl) S)
+  | _ => let tr := negb (getb FLAG id S) in
+         if seenb id tr concl i S then S
+         else add_seen (id, tr, concl, i) (set DYN id (union (get DYN id S) concl) S)
   end.
 
 (* `self.update_conclusion(..); yield OperationResult(bindings, self._is_false_, self); self._conclusion_.clear()` *)
@@ -106,7 +117,14 @@ Section Eval.
                     if fl then eval_right (Some ie) S' else post ie (setb FLAG id false S')) S in
         match s with
         | SAlt => eval_left S
-        | _ => eval_right b (eval_left S)
+        | _ =>
+            (* Union (since /repo 6dfdafd): `yield from filter(is_true, self.evaluate_right(sources))`: a false row of the
+               second pass is consumed inside the generator; Next's loop body only sees the true ones *)
+            let S := setb LEV id false (eval_left S) in
+            let S := ev r b (fun ie fr S' =>
+                               let S' := setb REV id true (setb FLAG id fr S') in
+                               if fr then S' else post ie S') S in
+            setb REV id false S
         end
     end.
 
